@@ -791,7 +791,9 @@ def object_construct(expression: exp.Expression) -> exp.Expression:
             if left_is_null or right_is_null:
                 continue
 
-            non_null_expressions.append(e)
+            # the children of a replaced node are not visited by transform, so convert nested
+            # eg: OBJECT_CONSTRUCT('a', OBJECT_CONSTRUCT('b', NULL)) here
+            non_null_expressions.append(e.transform(object_construct))
 
         if not non_null_expressions:
             # duckdb has no empty struct literal
